@@ -128,9 +128,9 @@ def blocker_store(ctx, r):
     def new(kind, d):
         return json.loads(st.exec(["--json", "new", kind], json.dumps(d).encode())["stdout"])["id"]
     e = new("epic", {"title": "layout"})
-    for k in range(5):
-        n1 = [30, 42, 50, 59, 70][k] + r.n(3)
-        n2 = [3, 13, 20, 28, 40][(k + r.n(5)) % 5]
+    # a grid, not a draw: every own-title length against a short, a medium and a long blocker title
+    for k, (n1, n2) in enumerate((a, b) for a in (30, 44, 52, 59, 70) for b in (3, 13, 28)):
+        n1 += r.n(3)
         fill = r.pick(["x", "w", "日", "é"])
         blocker = new("task", {"title": ("blocker " + fill * 60)[:n2], "epic": e if k % 2 else ""})
         blocked = new("task", {"title": ("a task with a long descriptive title " + fill * 80)[:n1], "epic": e if k % 2 else ""})
@@ -300,7 +300,7 @@ def run(ctx):
             stop = False
             epics_ = [t["id"] for t in g["tasks"] if t["is_epic"]][:2]
             for args in [[], ["--all"], ["--ready"], ["--epics"]] + [["--epic", e_, "--ready"] for e_ in epics_]:
-                for w in (widths if not ctx.quick else [None, r.pick([14, 15, 16, 17, 20, 24]), r.pick([40, 60, 80]), r.pick([100, 132, 240])]):
+                for w in (widths if not ctx.quick else ([None, 60, 80, 100, 132] if h == 2 else [None, r.pick([14, 15, 16, 17, 20, 24]), r.pick([40, 60, 80]), r.pick([100, 132, 240])])):
                     ctx.count(1, key=(" ".join(args), w))
                     if check_view(ctx, st, g, args, w, trace):
                         stop = True; break
